@@ -803,6 +803,7 @@ type GoVal struct {
 	U   uint64  `json:"u,omitempty"`
 	F   float64 `json:"f,omitempty"`
 	S   string  `json:"s,omitempty"`
+	SB  []byte  `json:"sb,omitempty"` // for string types: the string's bytes when they are not valid UTF-8 (JSON cannot carry them in S)
 	B   []byte  `json:"b,omitempty"`
 	L   []GoVal `json:"l,omitempty"`
 	K   []string `json:"k,omitempty"` // map keys, parallel to L
@@ -886,10 +887,18 @@ func (g GoVal) build() (v any, want *val.V, mustReject bool, spec bool) {
 	case "string":
 		v = g.S
 		x := val.Str(g.S)
+		if g.SB != nil {
+			v = string(g.SB)
+			x = val.V{K: "strb", X: g.SB}
+		}
 		want = &x
 	case "myStr":
 		v = myStr(g.S)
 		x := val.Str(g.S)
+		if g.SB != nil {
+			v = myStr(g.SB)
+			x = val.V{K: "strb", X: g.SB}
+		}
 		want = &x
 	case "bool":
 		v = g.I != 0
@@ -1221,7 +1230,19 @@ func drawScalar(t *rapid.T, label string) GoVal {
 	case strings.HasPrefix(g.T, "float"):
 		g.F = rapid.SampledFrom([]float64{0, 1, -1.5, 0.1, 1e-40, 3.4e38, 1e300, 16777217, math.MaxFloat32, math.SmallestNonzeroFloat64}).Draw(t, label+"_f")
 	case g.T == "string" || g.T == "myStr":
-		g.S = rapid.SampledFrom([]string{"", "a", "héllo", "日本"}).Draw(t, label+"_s")
+		switch rapid.IntRange(0, 3).Draw(t, label+"_smode") {
+		case 0:
+			g.S = rapid.SampledFrom([]string{"", "a", "héllo", "日本"}).Draw(t, label+"_s")
+		case 1:
+			g.S = rapid.String().Draw(t, label+"_sr")
+		default:
+			// a Go string is a byte string: Latin-1 text, a multi-byte rune cut short, lone continuation bytes,
+			// overlong forms, surrogates - stored exactly or rejected, like everything else
+			g.SB = rapid.SampledFrom([][]byte{[]byte("caf\xe9.txt"), {0xff}, {0xc3}, []byte("a\xe6\x97"), {0x80}, {0xc0, 0xaf}, {0xed, 0xa0, 0x80}, []byte("ok\xfe\xffend"), {0xf8, 0x88, 0x80, 0x80, 0x80}, {0x00}, []byte("a\x00b")}).Draw(t, label+"_sb")
+			if rapid.Bool().Draw(t, label+"_sbr") {
+				g.SB = rapid.SliceOfN(rapid.Byte(), 1, 6).Draw(t, label+"_sbb")
+			}
+		}
 	case g.T == "bytes":
 		g.B = rapid.SliceOfN(rapid.Byte(), 0, 5).Draw(t, label+"_b")
 	}
